@@ -17,11 +17,14 @@ RULE = ("states = distinct (salt, declaration order, weight vector) programs com
         "transitions = evaluations, each compared with md5/UTF-8/sorted-names/first-32-bits recomputed "
         "independently and located in the exact (Fraction) partition; plus known answers of the position function")  # fmt: skip
 
-SALTS = [None, "", "s", "exp-1", "é", "日本", "🎲", "e\u0301", "\u212b\u2126", "\u1100\u1161", "q\u0323\u0307", "S" * 140]
+SALTS = [None, "", "s", "exp-1", "é", "日本", "🎲", "e\u0301", "\u212b\u2126", "\u1100\u1161", "q\u0323\u0307", "S" * 140, "l’été", "“beta”", "„Neu“", "‹x›"]
 NAMES = ["a", "ab", "b", "ba"]
 # Mixed-case / underscore / digit names.  "Alphabetical order" is taken as code-point order of the
 # field names (what sorted() gives and what every release so far has published): any other order for
 # these names silently reassigns running experiments, which is exactly what the property forbids.
+# a name listed twice counts once (what every release so far does; the scheme says "the splitter values taken in
+# alphabetical order of field name", i.e. one value per name)
+DUPLICATES = [("a", "a"), ("b", "a", "b"), ("a", "b", "a", "b"), ("ab", "a", "ab")]
 NAMES2 = [("Region", "account_id"), ("userId", "user_country"), ("B", "_c", "a"), ("ID", "id_type"), ("f10", "f9", "f_1"), ("Z", "a", "_")]
 
 
@@ -61,7 +64,7 @@ def _work(units):
 
 
 def run(res, tier):
-    orders = [p for k in (1, 2, 3) for p in permutations(NAMES, k)] + [p for ns in NAMES2 for p in permutations(ns)]
+    orders = [p for k in (1, 2, 3) for p in permutations(NAMES, k)] + [p for ns in NAMES2 for p in permutations(ns)] + DUPLICATES
     units = [(s, o, w, tier) for s in SALTS for o in orders for w in weight_vectors()] + [(None, "COLLIDE", w, tier) for w in weight_vectors()]
     for w in pmap(_work, permuted(units, "c12"), chunk=8):
         res.merge_worker(w)
